@@ -158,6 +158,7 @@ bool StepScript(InterpreterEnv& env)
         } catch (...) {
             // a throwing operation (e.g. script number overflow) must not leave a stale history entry behind:
             // a later rewind would pop it and move curr_op_seq below the start of the script
+            pc = env.pc_history.back(); // (the operation did not take place: the position stays on it, see below)
             env.stack_history.pop_back();
             env.altstack_history.pop_back();
             env.pc_history.pop_back();
@@ -169,7 +170,9 @@ bool StepScript(InterpreterEnv& env)
             throw;
         }
         if (!step_ok) {
-            // undo above pushes
+            // undo above pushes -- and stay ON the failed operation: with the position advanced but no history entry, a rewind popped the entry
+            // of an earlier operation (after a script switch: an iterator into the previous script) and stepping went on past the failure
+            pc = env.pc_history.back();
             env.stack_history.pop_back();
             env.altstack_history.pop_back();
             env.pc_history.pop_back();
